@@ -175,4 +175,22 @@ PROPS = {
             {"pkg": S, "test": "TestVerifC16_rtr", "quick": (8, 8000), "thorough": (16, 400000)},
         ],
     },
+    "C08": {
+        "level": "exploration",
+        "claim": ("Generated neighbour configurations (family subsets of IPv4/IPv6 unicast, VPNv4, EVPN, FlowSpec; ADD-PATH "
+                  "send-max/receive per family; hold time; 2-/4-octet local AS; peer-as set or 0) x generated peer OPENs (any "
+                  "multiset of multiprotocol, ADD-PATH with duplicate/overlapping tuples, 4-octet-AS, extended-message and "
+                  "unknown capabilities in one or many optional parameters; any hold time and AS) run against a real BgpServer in "
+                  "virtual time. A reference negotiation function is compared with the OPEN bytes sent, the handshake outcome, "
+                  "ListPeer (timers, ADD-PATH state, peer type/AS), the encoding of the UPDATEs the server then sends for local "
+                  "routes of three families, the keepalive cadence, and the acceptance/refusal of a 4.5k UPDATE carrying a path id."),
+        "note": "Passive side only; GR/LLGR capability content is covered by C12.",
+        "technique": "property-based testing (rapid) in virtual time against a reference negotiation function",
+        "rule": ("non-trivial when local and remote differ in a dimension that changes the result (hold, families, ADD-PATH, "
+                 "4-octet AS, extended message); distinct by case hash"),
+        "assumptions": [],
+        "units": [
+            {"pkg": S, "test": "TestVerifC08", "quick": (16, 400), "thorough": (16, 20000), "timeout_q": 1500},
+        ],
+    },
 }
